@@ -1,4 +1,99 @@
-import Ahbicht.Model.Val
+import Ahbicht.Lemmas.ValTables
+/-!
+# C14 — `soll_is_required` is equivalent to rewriting SOLL at every level
+-/
 namespace Ahbicht.Properties.C14
-theorem placeholder : True := trivial
+open Ahbicht
+
+/-- SOLL ↦ MUSS (flag true) or KANN (flag false) in the result of a node's expression -/
+def rewriteRes (b : Bool) : NodeRes → NodeRes
+  | .ok r => .ok (if r.ind = .SOLL then { r with ind := if b then .MUSS else .KANN } else r)
+  | x => x
+
+def rewriteDE (b : Bool) : DataElement → DataElement
+  | .free d res i v => .free d (rewriteRes b res) i v
+  | x => x
+
+def rewriteSeg (b : Bool) (s : Segment) : Segment :=
+  { s with res := rewriteRes b s.res, des := s.des.map (rewriteDE b) }
+
+mutual
+def rewriteGroup (b : Bool) : Group → Group
+  | .mk d res gs ss => .mk d (rewriteRes b res) (rewriteGroups b gs) (ss.map (rewriteSeg b))
+def rewriteGroups (b : Bool) : Groups → Groups
+  | .nil => .nil
+  | .cons g gs => .cons (rewriteGroup b g) (rewriteGroups b gs)
+end
+
+/-- the table fact behind it -/
+theorem map_rewrite : ∀ (f : Option Bool) (i : Ind) (b b' : Bool),
+    mapOwn f i b = mapOwn f (if i = .SOLL then (if b then .MUSS else .KANN) else i) b' := by
+  decide
+
+theorem mapM_map_congr {α β γ : Type} (f : α → Except VErr γ) (g : β → Except VErr γ) (h : α → β)
+    (hfg : ∀ x, f x = g (h x)) : ∀ l : List α, l.mapM f = (l.map h).mapM g := by
+  intro l
+  induction l with
+  | nil => simp
+  | cons x xs ih => simp only [List.mapM_cons, List.map_cons, ih, hfg]
+
+theorem segLevel_rewrite (res : NodeRes) (p : Option RVV) (b b' : Bool) :
+    segLevel res p b = segLevel (rewriteRes b res) p b' := by
+  cases res with
+  | invalid m => simp [segLevel, rewriteRes]
+  | ok r =>
+    simp only [segLevel, rewriteRes]
+    rw [map_rewrite r.fulfilled r.ind b b']
+    by_cases h : r.ind = .SOLL <;> simp [h]
+
+theorem C14_data_element (de : DataElement) (st : RVV) (b b' : Bool) :
+    validateDataElement de st b = validateDataElement (rewriteDE b de) st b' := by
+  cases de with
+  | pool d es i => simp [validateDataElement, rewriteDE]
+  | free d res i v =>
+    cases res with
+    | invalid m => simp [validateDataElement, rewriteDE, rewriteRes]
+    | ok r =>
+      simp only [validateDataElement, rewriteDE, rewriteRes]
+      rw [map_rewrite r.fulfilled r.ind b b']
+      by_cases h : r.ind = .SOLL <;> simp [h]
+
+theorem C14_segment (s : Segment) (p : Option RVV) (b b' : Bool) :
+    validateSegment s p b = validateSegment (rewriteSeg b s) p b' := by
+  simp only [validateSegment, rewriteSeg]
+  rw [← segLevel_rewrite s.res p b b']
+  congr 1
+  funext x
+  obtain ⟨st, h⟩ := x
+  simp only
+  rw [mapM_map_congr (fun de => validateDataElement de st b) (fun de => validateDataElement de st b')
+    (rewriteDE b) (fun de => C14_data_element de st b b')]
+
+mutual
+theorem C14_group : ∀ (g : Group) (p : Option RVV) (b b' : Bool),
+    validateGroup g p b = validateGroup (rewriteGroup b g) p b'
+  | .mk d res gs ss, p, b, b' => by
+    simp only [validateGroup, rewriteGroup]
+    rw [← segLevel_rewrite res p b b']
+    congr 1
+    funext x
+    obtain ⟨st, h⟩ := x
+    simp only
+    rw [C14_groups gs (some st) b b',
+      mapM_map_congr (fun s => validateSegment s (some st) b) (fun s => validateSegment s (some st) b')
+        (rewriteSeg b) (fun s => C14_segment s (some st) b b')]
+theorem C14_groups : ∀ (gs : Groups) (p : Option RVV) (b b' : Bool),
+    validateGroups gs p b = validateGroups (rewriteGroups b gs) p b'
+  | .nil, p, b, b' => by simp [validateGroups, rewriteGroups]
+  | .cons g rest, p, b, b' => by
+    simp only [validateGroups, rewriteGroups]
+    rw [C14_group g p b b', C14_groups rest p b b']
+end
+
+/-- **C14.** Validating with `soll_is_required = b` equals validating the AHB in which every SOLL is rewritten (to MUSS for
+`true`, to KANN for `false`) — whatever flag is used for the rewritten AHB — for groups, segments and free-text elements at every depth. -/
+theorem C14 (lines : Groups) (b b' : Bool) : validateAhb lines b = validateAhb (rewriteGroups b lines) b' := by
+  simp only [validateAhb]
+  exact C14_groups lines none b b'
+
 end Ahbicht.Properties.C14
